@@ -90,7 +90,7 @@ theorem rmFinish_cons {s : St} (hc : Consistent s) (pp : Path) (n : Name) (dir :
     (hnode : s.mem (n :: pp) = some node) (hnw : node.whiteout = false)
     (hdir : dir = true → node.inUpper = false) :
     Outcome (rmFinish pp n dir node pm (!(node.upperLayerOnly && !lowerEntryExists s.disk pm n)) s)
-      (fun _ s' => Consistent s' ∧ Gone pp n s') (fun s' => Consistent s') := by
+      (fun _ s' => Consistent s' ∧ Gone pp n s' ∧ FrameX (n :: pp) s s') (fun s' => Consistent s' ∧ ViewX s s') := by
   have hl := hc.toLocal
   obtain ⟨pr, hpr, hprl, hprp, hpru, _, prest, hpreals⟩ := upper_head hc hpm hpu
   obtain ⟨L, hup⟩ : ∃ L, s.disk.upper = some L := by
@@ -98,6 +98,11 @@ theorem rmFinish_cons {s : St} (hc : Consistent s) (pp : Path) (n : Name) (dir :
     | none => have := no_upper_not_inUpper hc h hpm; rw [this] at hpu; cases hpu
     | some L => exact ⟨L, rfl⟩
   have hu : s.disk.upper.isSome := by rw [hup]; rfl
+  have hframeX : ∀ (X' : Node) (s' : St), s'.disk = s.disk.setUpper (n :: pp) X' → FrameX (n :: pp) s s' := by
+    intro X' s' hd
+    refine FrameX.of_upper hup (L' := L.set (n :: pp) X') (by rw [hd]; simp [Disk.setUpper, hup]) _ fun q hq => ?_
+    have : q ≠ n :: pp := by intro h; rw [h, below_self] at hq; cases hq
+    simp only [Layer.set, if_neg this]
   have hL0 : s.disk.layer pr.layer = some L := by rw [hprl]; exact hup
   obtain ⟨pm', hpm', hnk⟩ := hl.reach n pp node hnode
   rw [hpm] at hpm'; cases hpm'
@@ -124,7 +129,8 @@ theorem rmFinish_cons {s : St} (hc : Consistent s) (pp : Path) (n : Name) (dir :
       (∀ m, (L (m :: n :: pp)).isAbsent = true) →
       Outcome ((do
           let ri ← pr.createWhiteout n
-          insertChild pp n (newNode ri)) s3) (fun _ s' => Consistent s' ∧ Gone pp n s') (fun s' => Consistent s') := by
+          insertChild pp n (newNode ri)) s3) (fun _ s' => Consistent s' ∧ Gone pp n s' ∧ FrameX (n :: pp) s s')
+          (fun s' => Consistent s' ∧ ViewX s s') := by
     intro s3 L1 hd3 hm3 hL1a hL1p hL1set hleaf
     have hcw : hCreateWhiteout L1 pr.path n = .ok (L1.set (n :: pp) .whiteout) := by
       rw [hprp]
@@ -150,8 +156,10 @@ theorem rmFinish_cons {s : St} (hc : Consistent s) (pp : Path) (n : Name) (dir :
       (by rw [hloc, hreal]; exact Or.inl rfl)
       (by simp [newNode, headWhiteout])
       (by rw [hloc]; simp) []
-    refine ⟨this.congr ?_ ?_, Or.inl ⟨newNode { childReal pr n with whiteout := true }, ?_, rfl⟩⟩
-    · rw [hd5, hd4, hd3, hprl, hL1set]; simp [Disk.setUpper, hup, Disk.setLayer]
+    have hdisk5 : s5.disk = s.disk.setUpper (n :: pp) .whiteout := by
+      rw [hd5, hd4, hd3, hprl, hL1set]; simp [Disk.setUpper, hup, Disk.setLayer]
+    refine ⟨this.congr ?_ ?_, Or.inl ⟨newNode { childReal pr n with whiteout := true }, ?_, rfl⟩, hframeX _ s5 hdisk5⟩
+    · exact hdisk5
     · rw [hm5, hm4, hm3, insertedMem_removedMem]
     · rw [hm5, hm4, hm3, insertedMem_removedMem, insertedMem_apply]
       simp [cons_ne_self]
@@ -173,7 +181,7 @@ theorem rmFinish_cons {s : St} (hc : Consistent s) (pp : Path) (n : Name) (dir :
     cases hunl : hUnlink L pr.path n with
     | error e =>
       rw [bind_err (layerCall_err Method.unlink hL0 hunl)]
-      exact hc.congr rfl rfl
+      exact ⟨hc.congr rfl rfl, ViewX.of_disk rfl⟩
     | ok L1 =>
       obtain ⟨s3, h3, hd3, hm3⟩ := layerCall_ok' (f := fun L => hUnlink L pr.path n) Method.unlink hL0 hunl
       rw [bind_ok h3]
@@ -203,8 +211,10 @@ theorem rmFinish_cons {s : St} (hc : Consistent s) (pp : Path) (n : Name) (dir :
             | true => simp [hle] at hneed
         have hH := removed_needsNode hc hu n pp hpm hpreals hpru hcond
         have := consistent_removeChild hc hup n pp .absent hpm (by rw [← hL1eq]; exact keepRoot_hUnlink pp n L L1 hunl) hH []
-        refine ⟨this.congr ?_ ?_, Or.inr ⟨{ pm with kids := pm.kids.filter (· != n) }, ?_, hlo, ?_⟩⟩
-        · rw [hd4, hd3, hprl, hL1eq]; simp [Disk.setUpper, hup]
+        have hdisk4 : s4.disk = s.disk.setUpper (n :: pp) .absent := by
+          rw [hd4, hd3, hprl, hL1eq]; simp [Disk.setUpper, hup]
+        refine ⟨this.congr ?_ ?_, Or.inr ⟨{ pm with kids := pm.kids.filter (· != n) }, ?_, hlo, ?_⟩, hframeX _ s4 hdisk4⟩
+        · exact hdisk4
         · rw [hm4, hm3]
         · rw [hm4, hm3, removedMem_apply]; simp
         · simp [List.mem_filter]
@@ -260,7 +270,8 @@ theorem doRm_unlink_tail {s : St} (hc : Consistent s) (pp : Path) (n : Name) {pm
         let pm ← getNode pp
         let s ← getSt
         rmFinish pp n false node pm (!(node.upperLayerOnly && !lowerEntryExists s.disk pm n))) s)
-      (fun _ s' => Consistent s' ∧ Gone pp n s') (fun s' => Consistent s') := by
+      (fun _ s' => Consistent s' ∧ Gone pp n s' ∧ (DirNode pp s → FrameX (n :: pp) s s'))
+      (fun s' => Consistent s' ∧ (DirNode pp s → ViewX s s')) := by
   have hl := hc.toLocal
   have hls := lookupSelf_loaded hc hpm hw hlo hr
   by_cases hn : n ∈ pm.kids
@@ -271,13 +282,13 @@ theorem doRm_unlink_tail {s : St} (hc : Consistent s) (pp : Path) (n : Name) {pm
       simp [hn, getNode_ok hnode]
     rw [bind_ok hlk]
     by_cases hnw : node.whiteout = true
-    · simp only [hnw, if_true]; exact hc
+    · simp only [hnw, if_true]; exact ⟨hc, fun _ => ViewX.refl s⟩
     · simp only [Bool.not_eq_true] at hnw
       simp only [hnw, Bool.false_eq_true, if_false, whenM_false]
       rw [bind_ok (pure_eval () s)]
       have hcp := copyNodeUp_spec pp s hc
       cases hres : copyNodeUp pp s with
-      | err e s' => rw [hres] at hcp; rw [bind_err hres]; exact hcp.1
+      | err e s' => rw [hres] at hcp; rw [bind_err hres]; exact ⟨hcp.1, fun _ => hcp.2⟩
       | ok u s2 =>
         rw [hres] at hcp
         rw [bind_ok hres]
@@ -287,13 +298,18 @@ theorem doRm_unlink_tail {s : St} (hc : Consistent s) (pp : Path) (n : Name) {pm
         have hq2 : s2.mem (n :: pp) = some node := by
           rw [hcp.frame _ (by simp [isSuffixOf_cons_self])]; exact hnode
         rw [bind_ok (getNode_ok hq2), bind_ok (getNode_ok hpm2), bind_ok (getSt_eval s2)]
-        exact rmFinish_cons hcp.cons pp n false hpm2 hpu2 (by rw [hlo2]; exact hlo) hq2 hnw (fun h => by cases h)
+        have hfin := rmFinish_cons hcp.cons pp n false hpm2 hpu2 (by rw [hlo2]; exact hlo) hq2 hnw (fun h => by cases h)
+        cases hres3 : rmFinish pp n false node pm2 (!(node.upperLayerOnly && !lowerEntryExists s2.disk pm2 n)) s2 with
+        | err e s3 => rw [hres3] at hfin; exact ⟨hfin.1, fun hdn => (hcp.view hdn).trans hfin.2⟩
+        | ok u3 s3 =>
+          rw [hres3] at hfin
+          exact ⟨hfin.1, hfin.2.1, fun hdn => FrameX.after (hcp.view hdn) hfin.2.2⟩
   · have hlk : lookupNode pp n s = .err ENOENT s := by
       unfold lookupNode
       rw [bind_ok hls]
       simp [hn, fail]
     rw [bind_err hlk]
-    exact hc
+    exact ⟨hc, fun _ => ViewX.refl s⟩
 
 theorem doRm_unlink_cons (pp : Path) (n : Name) :
     Triple (fun s => Consistent s ∧ DirAt pp s) (doRm pp n false) (fun _ s => Consistent s ∧ Gone pp n s) Consistent := by
@@ -306,7 +322,21 @@ theorem doRm_unlink_cons (pp : Path) (n : Name) :
   refine Triple.bind (lookupSelf_ready' pp) fun _ => ?_
   apply Triple.ofOutcome
   intro s ⟨hc, pm, hpm, hlo, hw, r, rest, hr⟩
-  exact doRm_unlink_tail hc pp n hpm hlo hw hr
+  have := doRm_unlink_tail hc pp n hpm hlo hw hr
+  revert this
+  generalize (do
+        let node ← lookupNode pp n
+        if node.whiteout then fail ENOENT else do
+        whenM false (rmDirPrep (n :: pp))
+        copyNodeUp pp
+        let node ← getNode (n :: pp)
+        let pm ← getNode pp
+        let s ← getSt
+        rmFinish pp n false node pm (!(node.upperLayerOnly && !lowerEntryExists s.disk pm n)) : M Unit) s = res
+  intro this
+  cases res with
+  | ok u s' => exact ⟨this.1, this.2.1⟩
+  | err e s' => exact this.1
 
 /-- LOOKUP of the last component keeps the parent a visible directory in the forest -/
 theorem doLookup_keepsDir (pp : Path) (n : Name) :
